@@ -176,6 +176,25 @@ impl SimRng {
 /// One logged draw of the seam generator: (kind, value). kind 32 / 64 / 0 (fill_bytes).
 pub type Draw = (u8, u64);
 
+thread_local! {
+    /// per-thread trace of every call made on any `SeamRng` of this thread (C20: which `RngCore` method the members of a
+    /// set reached, with what result - a wrapper between the set and its members that re-routes calls shows up here)
+    static TRACE: std::cell::RefCell<Option<Vec<Draw>>> = const { std::cell::RefCell::new(None) };
+}
+pub fn trace_start() {
+    TRACE.with(|t| *t.borrow_mut() = Some(Vec::new()));
+}
+pub fn trace_take() -> Vec<Draw> {
+    TRACE.with(|t| t.borrow_mut().take().unwrap_or_default())
+}
+fn trace_push(d: Draw) {
+    TRACE.with(|t| {
+        if let Some(v) = t.borrow_mut().as_mut() {
+            v.push(d);
+        }
+    });
+}
+
 /// The generator handed to bourse. Wraps the very `Xoroshiro128StarStar::seed_from_u64(seed)` the
 /// shipped runners use; optionally scripted (steering) or faulted (boundary injections).
 pub struct SeamRng {
@@ -239,6 +258,7 @@ impl RngCore for SeamRng {
         if let Some(l) = self.log.as_mut() {
             l.push((32, v as u64));
         }
+        trace_push((32, v as u64));
         v
     }
     fn next_u64(&mut self) -> u64 {
@@ -254,6 +274,7 @@ impl RngCore for SeamRng {
         if let Some(l) = self.log.as_mut() {
             l.push((64, v));
         }
+        trace_push((64, v));
         v
     }
     fn fill_bytes(&mut self, dest: &mut [u8]) {
@@ -262,6 +283,7 @@ impl RngCore for SeamRng {
         if let Some(l) = self.log.as_mut() {
             l.push((0, dest.len() as u64));
         }
+        trace_push((0, dest.len() as u64));
     }
     fn try_fill_bytes(&mut self, dest: &mut [u8]) -> Result<(), rand::Error> {
         self.fill_bytes(dest);
